@@ -336,3 +336,33 @@ func VerifC14_DerivedChainsKeepTheirKeys() {
 		sym.Assert(bytes.Equal(p.MarshalForSigning("nn"), q.MarshalForSigning("nn")), "signed bytes are those of the content")
 	}
 }
+
+// VerifC14_DecodeIntoUsedChain: decoding is a function of the input bytes
+// only: a chain decoded into a receiver that already held another chain (whose
+// key had been computed, or not) equals the encoded chain, and its key and
+// signed bytes are those of the decoded content.
+func VerifC14_DecodeIntoUsedChain() {
+	older := VerifChain(20, 7, 8)
+	if sym.Bool("older-key-cached") {
+		_ = older.Key()
+	}
+	var src *ECChain
+	switch sym.Choice("encoded", 3) {
+	case 0:
+		src = &ECChain{} // bottom
+	case 1:
+		src = VerifChain(10, 1)
+	default:
+		src = VerifChain(10, 1, 2, 3)
+	}
+	var buf bytes.Buffer
+	sym.Assert(src.MarshalCBOR(&buf) == nil, "encodes")
+	err := older.UnmarshalCBOR(bytes.NewReader(buf.Bytes()))
+	sym.Assert(err == nil, "decodes")
+	sym.Cover("decoded")
+	sym.Assert(older.Eq(src) && older.Len() == src.Len(), "KNOWN:c14-bottom-decoded-into-used-chain:the decoded chain equals the encoded chain whatever the receiver held")
+	sym.Assert(older.Key() == verifDeepCopyChain(src).Key(), "KNOWN:c14-bottom-decoded-into-used-chain:the key of a decoded chain is the key of its content")
+	p := Payload{Instance: 1, Phase: PREPARE_PHASE, Value: older}
+	q := Payload{Instance: 1, Phase: PREPARE_PHASE, Value: verifDeepCopyChain(src)}
+	sym.Assert(bytes.Equal(p.MarshalForSigning("nn"), q.MarshalForSigning("nn")), "KNOWN:c14-bottom-decoded-into-used-chain:signed bytes of a decoded chain are those of its content")
+}
